@@ -150,6 +150,8 @@ func checkTaintedAccesses(c *eng.Ctx, t *eng.Taint, skipPkg func(string) bool) i
 }
 
 func runC14(c *eng.Ctx) {
+	c.Rule("R02.4", "K4")
+	ruleReplicationRequestCheckedAndServedInOneSection(c)
 	p := c.P
 	c.Rule("R14.5", "K1")
 	ruleEveryBatchedMessageWasValidated(c)
